@@ -241,7 +241,20 @@ class Engine:
         self.covers = []
         self.prune = True
         self.stats = {'forks': 0, 'pruned': 0}
-        self.base_axioms = hier.axioms()
+        _d = z3.Const('_d', smt.DS)
+        self.base_axioms = hier.axioms() + [
+            z3.ForAll([_d], z3.Implies(smt.IDX(_d), smt.LEN(_d)), patterns=[smt.IDX(_d)]),
+            z3.ForAll([_d], smt.N(_d) >= 0, patterns=[smt.N(_d)])]
+        # A-PRIVATE: evaluating an example or a user callable never raises the library's
+        # private control signal _ItemsNotDefined
+        if '_ItemsNotDefined' in hier.bases:
+            _i = z3.Int('_pi')
+            _f = z3.Const('_pf', smt.Fn)
+            _x = z3.Const('_px', smt.Obj)
+            c = hier.const('_ItemsNotDefined')
+            self.base_axioms += [
+                z3.ForAll([_d, _i], z3.Not(smt.SUB(smt.CLS(smt.EXC(_d, _i)), c)), patterns=[smt.EXC(_d, _i)]),
+                z3.ForAll([_f, _x], z3.Not(smt.SUB(smt.CLS(smt.APP_E(_f, _x)), c)), patterns=[smt.APP_E(_f, _x)])]
 
     # ------------------------------------------------------------------ utilities
     def new_oid(self):
@@ -678,6 +691,12 @@ class Engine:
             return z3.Length(it.seq), lambda k: [Out(smt.T, value=ObjV(it.seq[k]))]
         if isinstance(it, (DSRefV, InstV)):
             view = self.view_of(it, st)
+            if not z3.is_true(z3.simplify(view.iter_ok)):
+                r = self.ds_iter(view, BoolV(False), st)
+                if len(r) != 1:
+                    raise Unsupported('iteration over a dataset whose value iteration may be refused '
+                                      '(state the case in the variant requires)')
+                return self._stream_descr(r[0][1].view)
             sv = views.iter_stream(view, False)
             return self._stream_descr(sv)
         if isinstance(it, StreamV):
@@ -781,6 +800,10 @@ class Engine:
             hav.out_n = smt.fresh('out_n', smt.Int)
             hav.pc.append(hav.out_n >= 0)
         k = smt.fresh('k%s' % ordinal.replace('.', '_'), smt.Int)
+        smt.FOLDS.note_index(k)
+        smt.FOLDS.note_index(k + 1)
+        if length is not None:
+            smt.FOLDS.note_index(length)
         hav.pc.append(k >= 0)
         hav.pc.append(inv_at(hav, k))
         if length is not None:
@@ -1046,6 +1069,8 @@ class Engine:
             return self.call_class(f, args, kwargs, st, node)
         if isinstance(f, ClosureV):
             return self.call_closure(f, args, kwargs, st)
+        if isinstance(f, ItemGetterV):
+            return self.call_itemgetter(f, args, st)
         raise Unsupported('call of %r' % (f,))
 
     def call_userfn(self, f, args, kwargs, st):
@@ -1230,12 +1255,13 @@ class Engine:
                     if has:
                         res.append((s3, StreamV(views.iter_stream(view, True), True)))
                     else:
-                        e = self.new_exc(s3, '_ItemsNotDefined')
-                        sv = views.StreamView(I(1), lambda k: smt.T, lambda k: NONE, lambda k: e.t,
-                                              desc='items-not-defined')
-                        res.append((s3, StreamV(sv, True, 'items-not-defined')))
+                        res.append((s3, StreamV(views.refused_items_stream(view), True, 'items-refused')))
             else:
-                res.append((s2, StreamV(views.iter_stream(view, False), False)))
+                for s3, ok in self.branch(s2, view.iter_ok):
+                    if ok:
+                        res.append((s3, StreamV(views.iter_stream(view, False), False)))
+                    else:
+                        res.append((s3, StreamV(views.refused_values_stream(view), False, 'iter-refused')))
         return res
 
     def ds_copy(self, recv, view, args, kwargs, st):
@@ -1379,10 +1405,7 @@ class Engine:
         if isinstance(x, TupleV):
             return [(st, TupleV(x.items))]
         if isinstance(x, SymSeqV):
-            r = SymSeqV(x.length, x.jvar, x.elem, 'tuple')
-            if hasattr(x, 'keyview'):
-                r.keyview = x.keyview
-            return [(st, r)]
+            return [(st, x.retype('tuple'))]
         raise Unsupported('tuple(%r)' % (x,))
 
     def bi_list(self, args, kwargs, st, node):
@@ -1390,7 +1413,7 @@ class Engine:
             return [(st, ListV(z3.Empty(smt.ObjSeq)))]
         (x,) = args
         if isinstance(x, SymSeqV):
-            return [(st, SymSeqV(x.length, x.jvar, x.elem, 'list'))]
+            return [(st, x.retype('list'))]
         if isinstance(x, TupleV):
             return [(st, TupleV(x.items, True))]
         h = self.ctx_hook('list_hook', st, x)
@@ -1419,6 +1442,76 @@ class Engine:
             m.lazy_map = (ft, sv)
             return [(st, StreamV(m, False))]
         raise Unsupported('map(%r, %r)' % (f, x))
+
+    def bi_operator_itemgetter(self, args, kwargs, st, node):
+        if len(args) == 1 and isinstance(args[0], tuple) and isinstance(args[0][1], SymSeqV):
+            idx = args[0][1]
+            res = []
+            for s2, side in self.branch(st, idx.length == 0):
+                if side:
+                    # operator.itemgetter() without arguments
+                    self.raise_(s2, self.new_exc(s2, 'TypeError'))
+                else:
+                    res.append((s2, ItemGetterV(idx)))
+            return res
+        if len(args) == 1 and isinstance(args[0], IntV):
+            return [(st, ItemGetterV(None, args[0]))]
+        raise Unsupported('itemgetter%r' % (args,))
+
+    def call_itemgetter(self, g, args, st):
+        (seq,) = args
+        if g.single is not None:
+            return self.subscript(seq, g.single, st, None)
+        idx = g.idx
+        if not isinstance(seq, SymSeqV):
+            raise Unsupported('itemgetter applied to %r' % (seq,))
+        n = seq.length
+        jj = smt.fresh('gq', smt.Int)
+        it = idx.at(jj).t
+        inr = z3.And(it >= -n, it < n)
+        res = []
+        # some index out of range -> IndexError
+        j0 = smt.fresh('g0', smt.Int)
+        bad = st.fork(j0 >= 0, j0 < idx.length, z3.Not(z3.substitute(inr, (jj, j0))))
+        if self.feasible(bad):
+            self.raise_(bad, self.new_exc(bad, 'IndexError'))
+        ok = st.fork(z3.ForAll([jj], z3.Implies(z3.And(jj >= 0, jj < idx.length), inr)))
+
+        def pick(e):
+            i = idx.at(e).t
+            return seq.at(z3.If(i < 0, i + n, i))
+        for s2, one in self.branch(ok, idx.length == 1):
+            if one:
+                res.append((s2, pick(I(0))))
+            else:
+                res.append((s2, SymSeqV(idx.length, pick, 'tuple')))
+        return res
+
+    def bi_zip(self, args, kwargs, st, node):
+        """zip(*datasets) over a tuple of inputs whose lengths are proved equal at the call
+        site (obligation); element k is the tuple of the k-th elements, the first input
+        that raises at k determines the exception."""
+        if len(args) == 1 and isinstance(args[0], tuple) and isinstance(args[0][1], DSTupleV):
+            t = args[0][1]
+            h = self.ctx_hook('zip_model', st, t)
+            if h is None:
+                raise Unsupported('zip(*inputs) without a zip model in the contract')
+            return h
+        raise Unsupported('zip%r' % (args,))
+
+    def bi_sum(self, args, kwargs, st, node):
+        (x,) = args
+        if isinstance(x, SymSeqV) and isinstance(x.at(z3.Int('_J0')), IntV):
+            jv = z3.Int('_J0')
+            f = smt.FOLDS.sum(jv, x.at(jv).t)
+            smt.FOLDS.note_index(x.length)
+            return [(st, IntV(f(x.length)))]
+        if isinstance(x, TupleV) and all(isinstance(i, IntV) for i in x.items):
+            t = I(0)
+            for i in x.items:
+                t = t + i.t
+            return [(st, IntV(t))]
+        raise Unsupported('sum(%r)' % (x,))
 
     def bi_iter(self, args, kwargs, st, node):
         (x,) = args
@@ -1496,9 +1589,11 @@ class Engine:
 
     def bi_all(self, args, kwargs, st, node):
         (x,) = args
-        if isinstance(x, SymSeqV) and isinstance(x.elem, BoolV):
-            j = x.jvar
-            return [(st, BoolV(z3.ForAll([j], z3.Implies(z3.And(j >= 0, j < x.length), x.elem.t))))]
+        if isinstance(x, SymSeqV):
+            j = smt.fresh('aj', smt.Int)
+            el = x.at(j)
+            if isinstance(el, BoolV):
+                return [(st, BoolV(z3.ForAll([j], z3.Implies(z3.And(j >= 0, j < x.length), el.t))))]
         if isinstance(x, TupleV):
             return [(st, BoolV(z3.And(*[self.truth(i) for i in x.items]) if x.items else smt.T))]
         raise Unsupported('all(%r)' % (x,))
@@ -1886,7 +1981,7 @@ class Engine:
             if body_log:
                 s_ok.ghost['log'] = log0 + (('forall', j, length, body_log),)
             if self.feasible(s_ok):
-                res.append((s_ok, SymSeqV(length, j, vb, 'list' if pytype == 'list' else 'tuple')))
+                res.append((s_ok, SymSeqV.from_term(length, j, vb, 'list' if pytype == 'list' else 'tuple')))
             # first failure
             for o in raised:
                 j0 = smt.fresh('j0', smt.Int)
@@ -1908,6 +2003,14 @@ class RangeV(Val):
     def __init__(self, start, n):
         self.start = start
         self.n = n
+
+
+class ItemGetterV(Val):
+    kind = 'itemgetter'
+
+    def __init__(self, idx, single=None):
+        self.idx = idx
+        self.single = single
 
 
 class SuperV(Val):
@@ -1987,7 +2090,6 @@ class SymDictV(Val):
         return p
 
     def keys_seq(self, pytype='tuple'):
-        j = smt.fresh('dj', smt.Int)
-        s = SymSeqV(self.n, j, KeyV(self.key(j)), pytype)
+        s = SymSeqV(self.n, lambda e: KeyV(self.key(e)), pytype)
         s.keyview = self
         return s
